@@ -1,11 +1,11 @@
 SPECIFICATION Spec
 CONSTANTS
-  Alphabet = {"lt", "gt", "slash", "qmark", "bang", "eq", "dq", "sp", "nl", "x", "nul"}
+  Alphabet = {"doctype", "dq", "sq", "gt", "lb", "x", "nul"}
   MaxLen = 5
   Emit = TRUE
   VoidClosesTag = TRUE
   NameStopNeedsGt = TRUE
-  DoctypeQuote = "remember"
+  DoctypeQuote = "toggle"
   NulInTagIsError = TRUE
 INVARIANT TypeOK
 PROPERTY RefinesXml
